@@ -70,6 +70,17 @@ type SpecFunc struct {
 	Pkg    string
 }
 
+// WritersSpec: only the listed functions (and package initialisation) may write the field or
+// let its address escape:  //@ writers C13 Search.timeLimit: (*Search).run, (*Search).setupSearchLimits
+type WritersSpec struct {
+	Pkg    string
+	Props  []string
+	Type   string
+	Field  string
+	Funcs  []string
+	Line   string
+}
+
 type AssertAt struct {
 	Anchor string
 	E      SpecExpr
@@ -106,11 +117,16 @@ type Contract struct {
 	Safety     bool
 	NilCheck   bool
 	NoFrame    bool
+	PureCalls  map[string]bool // callees treated as uninterpreted functions of their arguments in this unit
+	Inlines    map[string]bool // callees executed by their bodies in this unit although they have a contract
+	DivAbstract bool
+	Scratch    []string // locations whose entry value must not influence the result (non-interference)
 	NoSplit    bool // do not split conjunctive goals into one obligation per conjunct
 	Asserts    []AssertAt
 	Ghosts     []GhostVar
 	GhostUpd   []GhostUpdate
 	Uses       []string
+	UsesAtReturn []string // lemma instances at every return (may mention result)
 	Unfolds    []string // unfoldings of recursive spec functions over the entry state
 	Inducts    []string // lemma: instances of the lemma itself assumed under a smaller measure
 	Measure    *SpecExpr
@@ -130,6 +146,7 @@ type ContractSet struct {
 	Specs     map[string]*SpecFunc // by name (global namespace; pkg recorded)
 	Grounds   map[string]bool      // "pkg.global"
 	Frozen    map[string]bool      // "pkg.global": never written outside package initialisation
+	Writers   []WritersSpec        // field write whitelists
 	Order     []string
 	Errors    []string
 }
@@ -247,6 +264,20 @@ func (cs *ContractSet) parseFile(path string) {
 			sf.Result = res
 			sf.Body = mk(body)
 			cs.Specs[name] = sf
+			continue
+		case "writers":
+			wm := regexp.MustCompile(`^([\w,]+)\s+(\w+)\.(\w+)\s*:\s*(.*)$`).FindStringSubmatch(rest)
+			if wm == nil {
+				cs.errf("%s: bad writers clause %q (syntax: writers C13 Type.field: f1, f2)", loc, rest)
+				continue
+			}
+			ws := WritersSpec{Pkg: pkg, Props: strings.Split(wm[1], ","), Type: wm[2], Field: wm[3], Line: loc}
+			for _, f := range strings.Split(wm[4], ",") {
+				if f = strings.TrimSpace(f); f != "" {
+					ws.Funcs = append(ws.Funcs, f)
+				}
+			}
+			cs.Writers = append(cs.Writers, ws)
 			continue
 		case "ground", "frozen":
 			for _, g := range strings.Fields(strings.ReplaceAll(rest, ",", " ")) {
@@ -376,9 +407,39 @@ func (cs *ContractSet) parseFile(path string) {
 			cur.Body = append(cur.Body, SpecExpr{Src: rest, Line: loc})
 		case "nosplit":
 			cur.NoSplit = true
+		case "purecalls":
+			if cur.PureCalls == nil {
+				cur.PureCalls = map[string]bool{}
+			}
+			for _, a := range strings.Split(rest, ",") {
+				a = strings.TrimSpace(a)
+				if !strings.Contains(a, ".") || strings.HasPrefix(a, "(") {
+					a = pkg + "." + a
+				}
+				cur.PureCalls[a] = true
+			}
+		case "inlines":
+			if cur.Inlines == nil {
+				cur.Inlines = map[string]bool{}
+			}
+			for _, a := range strings.Split(rest, ",") {
+				a = strings.TrimSpace(a)
+				if !strings.Contains(a, ".") || strings.HasPrefix(a, "(") {
+					a = pkg + "." + a
+				}
+				cur.Inlines[a] = true
+			}
+		case "divabstract":
+			cur.DivAbstract = true
+		case "scratch":
+			for _, a := range splitTop(rest, ',') {
+				cur.Scratch = append(cur.Scratch, strings.TrimSpace(a))
+			}
 		case "use":
 			if ord != "" {
 				loop().Uses = append(loop().Uses, rest)
+			} else if i := strings.Index(rest, " at return"); i >= 0 {
+				cur.UsesAtReturn = append(cur.UsesAtReturn, strings.TrimSpace(rest[:i]+rest[i+10:]))
 			} else {
 				cur.Uses = append(cur.Uses, rest)
 			}
